@@ -848,7 +848,7 @@ class SchedulingSolver(BaseModelWithJson):
             different_assertions.append(t._end != self._model[t._end].as_long())
             if t.optional:
                 different_assertions.append(
-                    t._scheduled != f"{self. _model[t._scheduled]}" == "True"
+                    t._scheduled != (f"{self._model[t._scheduled]}" == "True")
                 )
         # any of the assertions is meet
         self.append_z3_assertion(z3.Or(different_assertions))
